@@ -59,7 +59,11 @@ def main():
             cn, tn = m.split("::")
             mod, cls = cn.rsplit(".", 1)
             return f"'{mod.replace('.', '/')}.py::{cls}::{tn}'"
-        still = [m for m in missing if sh(f"/venv/bin/python -m pytest -q -p no:cacheprovider --timeout=900 {tid(m)}", wt, env).returncode != 0]
+        def fails_alone(m, tries=3):
+            # wall-clock tolerance tests flake under load: a test counts as failing only if it fails `tries` times alone
+            return all(sh(f"/venv/bin/python -m pytest -q -p no:cacheprovider --timeout=900 {tid(m)}", wt, env).returncode != 0
+                       for _ in range(tries))
+        still = [m for m in missing if fails_alone(m)]
         if missing:
             ran.append(f"re-run alone with change: still failing {still}")
             print(ran[-1], flush=True)
